@@ -296,6 +296,7 @@ func (r *Run) condWait(st *State, fr *Frame, cond T, in ssa.Instruction, dst ssa
 		r.setResult(st, fr, dst, nil)
 		return nil
 	}
+	e.safety(st, fr, in, "nilcond", Not(Eq(cond, NilOf(SRef))), "cond.Wait on a non-nil *sync.Cond at "+e.posOf(in))
 	held := r.heldIdx(st, lr.Key, true) >= 0
 	g := False
 	if held {
@@ -307,6 +308,7 @@ func (r *Run) condWait(st *State, fr *Frame, cond T, in ssa.Instruction, dst ssa
 	r.yield(st, fr, in, "cond.Wait")
 	r.havocGuardedOf(st, lr.Owner, lr.Field, lr.Base)
 	r.assumeInvariants(st, lr.Owner, lr.Field, lr.Base)
+	r.assumeRely(st, fr, lr)
 	r.setResult(st, fr, dst, nil)
 	return nil
 }
@@ -349,6 +351,7 @@ func (r *Run) onceDo(st *State, fr *Frame, once T, f Val, in ssa.Instruction, ds
 func (r *Run) wgAdd(st *State, fr *Frame, wg T, d T, in ssa.Instruction) {
 	e := r.e
 	n := e.regionRead(st, "wg.n", []Sort{SRef}, SInt, wg)
+	st.assume(App(SBool, ">=", n, IntLit(0))) // A-LIB: a WaitGroup counter is never negative
 	nn := App(SInt, "+", n, d)
 	e.safety(st, fr, in, "wg", App(SBool, ">=", nn, IntLit(0)), "WaitGroup counter stays non-negative at "+e.posOf(in))
 	e.regionWrite1(st, "wg.n", SInt, wg, nn)
